@@ -1,2 +1,167 @@
-(* C10 - placeholder while the proofs are being written *)
-From RareV Require Import Model.Eff Model.Optimize Model.FuncFile Model.C10Check.
+(* C10 - Optimisation and user-defined functions never change an expression's value.
+   Models: Model/Eff.v (stages as a free monad of context look-ups and the clock), Model/Optimize.v
+   (compilation of the parse tree of Model/Tmpl.v with and without CompiledKeyBuilder.optimize, the
+   helper constructors), Model/FuncFile.v (the functions-file reader, registration, substitution).
+   [meq] is equality of stages as functions of (context, clock) - value and number of look-ups
+   ([C10_meq_run]); [kg m]: m reads the clock only after a key look-up. *)
+From Coq Require Import List NArith ZArith Bool String.
+From RareV Require Import Base.Hex Base.Res Base.Num Gen.GenC11 Model.Tmpl Model.Funcs Model.Eff Model.Optimize Model.FuncFile
+  Model.C10Check Model.MathEval Model.MathTok Model.MathParse
+  Proofs.EffProof Proofs.OptimizeProof Proofs.OptimizeLive Proofs.FuncFileLoader Proofs.FuncFileInline
+  Proofs.FuncFileEnv Proofs.MathEvalProof Proofs.MathRelProof Props.C19.
+Import ListNotations.
+Local Notation length := List.length.
+Local Open Scope string_scope.
+
+(* meq is observational: same value and same number of look-ups in every context at every clock reading *)
+Theorem C10_meq_run : forall (m m' : stage), meq m m' -> forall c clk, run m c clk = run m' c clk.
+Proof. exact (@run_meq bytes). Qed.
+Print Assumptions C10_meq_run.
+
+(* Clause "constant sub-expressions folded at compile time have their run-time value": a stage the
+   probe (EvalStaticStage at compile clock c0) reports constant evaluates to that value, with no
+   look-up, in every context at every later clock reading. *)
+Theorem C10_static_constant : forall (m : stage) c0 v, kg m -> static c0 m = Some v ->
+  forall ctx clk, run m ctx clk = (v, O).
+Proof. exact (@static_constant bytes). Qed.
+Print Assumptions C10_static_constant.
+
+(* ... and the guard is necessary: a stage reading the clock without touching the context is frozen
+   by the probe (why {time live} touches the context) *)
+Theorem C10_static_unguarded_refuted :
+  exists (m : stage) c0 v, static c0 m = Some v /\ exists c clk, fst (run m c clk) <> v.
+Proof. exact static_unguarded_frozen. Qed.
+Print Assumptions C10_static_unguarded_refuted.
+
+(* every template compiled against a well-behaved function table satisfies the guard *)
+Theorem C10_compiled_guarded : forall c0 E, env_good c0 E -> forall o t, kg (eval_tmpl o c0 E t).
+Proof. exact eval_kg. Qed.
+Print Assumptions C10_compiled_guarded.
+
+(* Clause "evaluation with optimisation yields the same string as without", one stage list:
+   CompiledKeyBuilder.optimize (fold constants, merge adjacent literals) preserves BuildKey. *)
+Theorem C10_optimize_sound : forall c0 (stages : list stage), Forall kg stages ->
+  forall ctx clk, run (mconcat (optimize c0 stages)) ctx clk = run (mconcat stages) ctx clk.
+Proof. intros c0 l K. exact (run_meq _ _ (optimize_sound c0 l K)). Qed.
+Print Assumptions C10_optimize_sound.
+
+(* ... lifted to whole templates through every level of nested compilation (arguments are compiled by
+   the same builder, constructors probe their arguments): for every template and every context *)
+Theorem C10_optimize_sound_tmpl : forall c0 E, env_good c0 E -> forall t ctx clk,
+  run (eval_tmpl true c0 E t) ctx clk = run (eval_tmpl false c0 E t) ctx clk.
+Proof. intros c0 E G t. exact (run_meq _ _ (eval_opt_sound c0 E G t)). Qed.
+Print Assumptions C10_optimize_sound_tmpl.
+
+(* the modelled part of stdlib.StandardFunctions is a well-behaved table, and it stays well-behaved
+   when a functions file is loaded; hence optimisation is sound with any functions file *)
+Theorem C10_std_env_good : forall c0, env_good c0 std_env.
+Proof. exact std_env_good. Qed.
+Print Assumptions C10_std_env_good.
+Theorem C10_loaded_sound : forall c0 text t,
+  let '(E, _, _) := load_file c0 text in meq (eval_tmpl true c0 E t) (eval_tmpl false c0 E t).
+Proof. exact loaded_opt_sound. Qed.
+Print Assumptions C10_loaded_sound.
+
+(* Clause "values defined to vary are not frozen": the probe sees a look-up in {time live} and
+   {time delta} in both modes, also inside any sub-context; they follow the clock; {time now} is a
+   compile-time constant in both modes. *)
+Theorem C10_live_not_frozen : forall o c0,
+  static c0 (eval_tmpl o c0 std_env (time_call "live")) = None
+  /\ static c0 (eval_tmpl o c0 std_env (time_call "delta")) = None.
+Proof. exact live_not_frozen. Qed.
+Print Assumptions C10_live_not_frozen.
+Theorem C10_live_not_frozen_in_subcontext : forall h c0,
+  static c0 (subst_match h live_stage) = None /\ static c0 (subst_match h (delta_stage c0)) = None.
+Proof. exact live_not_frozen_in_subcontext. Qed.
+Print Assumptions C10_live_not_frozen_in_subcontext.
+Theorem C10_live_follows_clock : forall o c0 c clk,
+  fst (run (eval_tmpl o c0 std_env (time_call "live")) c clk) = itoa clk
+  /\ fst (run (eval_tmpl o c0 std_env (time_call "delta")) c clk) = itoa (clk - c0).
+Proof. exact live_follows_clock. Qed.
+Print Assumptions C10_live_follows_clock.
+Theorem C10_now_compile_time : forall o c0 c clk,
+  run (eval_tmpl o c0 std_env (time_call "now")) c clk = (itoa c0, O).
+Proof. exact now_is_compile_time. Qed.
+Print Assumptions C10_now_compile_time.
+(* the pinned touch GetMatch(-1) is answered locally inside a funcs-file function: frozen
+   (known finding C10-live-frozen-in-subcontext; the model has the repaired touch GetKey("")) *)
+Theorem C10_live_pinned_refuted :
+  exists c0 args v, static c0 (with_args args live_pinned) = Some v
+                    /\ exists c clk, fst (run (with_args args live_pinned) c clk) <> v.
+Proof. exact live_pinned_frozen_in_function. Qed.
+Print Assumptions C10_live_pinned_refuted.
+
+(* Typed arguments (mapTypedArgs): a constant argument that does not parse yields the marker when the
+   expression is compiled, and the same text arriving at run time yields the same marker. *)
+Theorem C10_typed_args : forall f c0 (l : list (M bytes)) i s,
+  (2 <= length l)%nat -> (i < length l)%nat -> static c0 (nth i l (Ret [])) = Some s -> atoi s = None ->
+  h_body (H (p_ifold f)) c0 (map (static c0) l) = Fail ErrorNum /\ ctor_of c0 (H (p_ifold f)) l = Ret ErrorNum.
+Proof. exact typed_args_compile_time. Qed.
+Print Assumptions C10_typed_args.
+Theorem C10_typed_args_run_time : forall f v i r acc (l : list stage) c clk s,
+  vstat v i = None -> fst (run (nth i l (Ret [])) c clk) = s -> atoi s = None ->
+  fst (run (interp nomask l (ifold_run f v (i :: r) acc)) c clk) = ErrorNum.
+Proof. exact typed_args_run_time. Qed.
+Print Assumptions C10_typed_args_run_time.
+
+(* stdmath: compile-time simplification and constants-as-variables (proved for C19, re-exported) *)
+(* statements: exactly those of Props/C19.v (meval (simplify e) = meval e; a constant and a variable bound
+   to the same value give the same result) *)
+Theorem C10_math_simplify : ltac:(let t := type of C19_simplify in exact t).
+Proof. exact C19_simplify. Qed.
+Theorem C10_const_var : ltac:(let t := type of C19_const_var in exact t).
+Proof. exact C19_const_var. Qed.
+Print Assumptions C10_math_simplify.
+Print Assumptions C10_const_var.
+
+(* Clause "a function loaded from a funcs file (with comments, blank lines and backslash-continued
+   lines)": the reader returns exactly the definitions under every layout. *)
+Theorem C10_loader_layout : forall L defs, layout_of L defs -> load_defs (render L) = (defs, O).
+Proof. exact loader_layout. Qed.
+Print Assumptions C10_loader_layout.
+Example C10_layout_example :
+  exists L, layout_of L [(of_str "double", of_str "{sumi {0} {0}}")]
+            /\ render L = [of_str "# test func"; of_str "double {sumi \ # twice"; of_str ""; of_str "   {0} {0}}  "].
+Proof. exact layout_example. Qed.
+Print Assumptions C10_layout_example.
+
+(* a user function's stage evaluates its body in the lazy sub-context of the call's arguments:
+   {i} = the i-th argument evaluated in the caller's context, named keys the caller's *)
+Theorem C10_call_lazy_context : forall (args : list stage) (body : stage) c clk,
+  fst (run (ufun body args) c clk) = fst (run body (lazy_ctx args c clk) clk).
+Proof. intros. exact (run_with_args_fst args body c clk). Qed.
+Print Assumptions C10_call_lazy_context.
+
+(* Clause "{name a b ..} equals the body with {0}, {1}, .. replaced by the call's arguments, named
+   keys resolved in the caller's match and missing arguments empty": in both modes, for every body
+   and every argument list, substitution not descending into binder arguments; earlier functions
+   called from the body are covered because the table E is arbitrary (induction on the definition
+   order is [C10_loaded_sound]'s install_good).  [iok_all]: what a helper's constructor learns about
+   its arguments is unchanged by the substitution. *)
+Theorem C10_call_inline : forall c0 E, env_good c0 E -> env_ntm c0 E ->
+  forall args o f b B,
+    lookup E f = Some (FUser b) -> meq b (eval_tmpl true c0 E B) -> iok_all c0 E args B ->
+    meq (eval_tmpl o c0 E [PCall f args]) (eval_tmpl o c0 E (subst_tmpl E args B)).
+Proof. exact call_inline. Qed.
+Print Assumptions C10_call_inline.
+Example C10_call_inline_example : forall o,
+  meq (eval_tmpl o 1000 env2 [PCall (of_str "quad") ex_args])
+      (eval_tmpl o 1000 env2 (subst_tmpl env2 ex_args b_quad)).
+Proof. exact call_inline_example. Qed.
+Print Assumptions C10_call_inline_example.
+(* without that hypothesis the statement is false of the code (known finding C10-const-param-in-function) *)
+Theorem C10_call_inline_unrestricted_refuted :
+  exists c clk,
+    fst (run (eval_tmpl true 1000 rx_env [PCall (of_str "r") rx_args]) c clk)
+    <> fst (run (eval_tmpl true 1000 rx_env (subst_tmpl rx_env rx_args rx_body)) c clk).
+Proof. exact call_inline_unrestricted_refuted. Qed.
+Print Assumptions C10_call_inline_unrestricted_refuted.
+
+(* the boolean form holds of the model's own prediction whenever the call/inline hypothesis does
+   (rows: optimising = plain by C10_loaded_sound) *)
+Theorem C10_check_opt_rows : forall c0 E, env_good c0 E -> forall t c clk,
+  bytes_eqb (fst (run (eval_tmpl true c0 E t) c clk)) (fst (run (eval_tmpl false c0 E t) c clk)) = true.
+Proof.
+  intros c0 E G t c clk. rewrite (run_meq _ _ (eval_opt_sound c0 E G t)). apply bytes_eqb_eq. reflexivity.
+Qed.
+Print Assumptions C10_check_opt_rows.
